@@ -191,14 +191,21 @@ class MapEngine:
                     ops.append({"op": "edit", "curve": j, "key": k,
                                 "value": kw[k]})
             elif r < 0.73:
-                steps = gen_pipeline(rng)
+                if rng.random() < 0.35:
+                    from .engine_curve import gen_invalid_request
+                    steps, options = gen_invalid_request(rng)
+                else:
+                    steps = gen_pipeline(rng)
+                    options = gen_options(rng, steps)
                 ops.append({"op": "prep", "curve": j, "steps": steps,
-                            "options": gen_options(rng, steps)})
+                            "options": options})
             else:
                 ops.append({"op": "get_qmap",
                             "feature": rng.choice(FEATURES)})
         ops.append({"op": "get_qmap", "feature": rng.choice(FEATURES)})
-        return {"config": {"files": files}, "ops": ops}
+        subdir = rng.choice(["data", "data", "data", ".cache/data",
+                             "a/.snapshot/data", "x/../data"])
+        return {"config": {"files": files, "subdir": subdir}, "ops": ops}
 
     # ------------------------------------------------------------ execute
     def execute(self, run):
@@ -258,8 +265,10 @@ class MapEngine:
         from afmformats.errors import MissingMetaDataError
         from nanite.qmap import DataMissingWarning
         cfg = run["config"]
-        folder = scratch / "data"
-        folder.mkdir()
+        # some users keep data below a hidden directory (~/.cache/...), or
+        # give a path with '..' in it
+        folder = scratch / cfg.get("subdir", "data")
+        folder.mkdir(parents=True)
         paths = self.build_files(cfg, folder)
         log = []
         probes = collections.Counter()
@@ -548,6 +557,14 @@ class MapEngine:
                         except _caught():
                             pass
                         self.after_change(d, ref[k], before, prep_before)
+                        if prep_state(d) == prep_before and \
+                                ref[k]["rating"] is not None:
+                            # a request was made but the remembered pipeline
+                            # is what it was (skipped as unchanged, or
+                            # refused on a never-preprocessed curve): the
+                            # statement does not say whether the rating
+                            # survives that - both answers are accepted
+                            ref[k]["stale"] = True
                         if read_once:
                             changed_after_read = True
                 except _caught() as e:
